@@ -222,3 +222,84 @@ var builtinCorpus = []string{
 	"DESCRIBE t",
 	"REPLACE INTO t (a) VALUES (1)",
 }
+
+// compactDump renders a tree with every zero-valued field left out: (Type Field=value …), lists in brackets, strings
+// quoted. What is not written in the SQL text does not show; it is the form of the hand-reviewed expectations in
+// corpus/c03_clauses.tsv.
+func compactDump(v reflect.Value) string {
+	var b strings.Builder
+	compactInto(&b, v)
+	return b.String()
+}
+
+func compactInto(b *strings.Builder, v reflect.Value) {
+	if !v.IsValid() {
+		b.WriteString("nil")
+		return
+	}
+	switch v.Kind() {
+	case reflect.Interface, reflect.Pointer:
+		if v.IsNil() {
+			b.WriteString("nil")
+			return
+		}
+		compactInto(b, v.Elem())
+	case reflect.Struct:
+		b.WriteString("(" + v.Type().Name())
+		for i := 0; i < v.NumField(); i++ {
+			f := v.Field(i)
+			if f.IsZero() {
+				continue
+			}
+			b.WriteString(" " + v.Type().Field(i).Name + "=")
+			compactInto(b, f)
+		}
+		b.WriteString(")")
+	case reflect.Slice:
+		b.WriteString("[")
+		for i := 0; i < v.Len(); i++ {
+			if i > 0 {
+				b.WriteString(" ")
+			}
+			compactInto(b, v.Index(i))
+		}
+		b.WriteString("]")
+	case reflect.String:
+		b.WriteString(fmt.Sprintf("%q", v.String()))
+	default:
+		if v.CanInterface() {
+			b.WriteString(fmt.Sprint(v.Interface()))
+		} else {
+			b.WriteString(fmt.Sprint(v))
+		}
+	}
+}
+
+// clauseCorpus: (statement, reviewed compact dump of its tree)
+func clauseCorpus() [][2]string {
+	raw, err := os.ReadFile(verifDir + "/corpus/c03_clauses.tsv")
+	if err != nil {
+		return nil
+	}
+	var out [][2]string
+	for _, l := range strings.Split(string(raw), "\n") {
+		if i := strings.Index(l, "\t"); i > 0 {
+			out = append(out, [2]string{l[:i], l[i+1:]})
+		}
+	}
+	return out
+}
+
+// the clause catalogue is part of the built-in corpus of every check that works on accepted statements
+func init() {
+	seen := map[string]bool{}
+	for _, s := range builtinCorpus {
+		seen[s] = true
+	}
+	for _, e := range clauseCorpus() {
+		if !seen[e[0]] {
+			seen[e[0]] = true
+			builtinCorpus = append(builtinCorpus, e[0])
+		}
+	}
+}
